@@ -287,7 +287,10 @@ def embed(rng, cdesc, grid=6, labels=None, ground=True, sym_of=None):
         symbols.append(s)
     g = [c for c in cdesc['components'] if c['ctor'] == 'ground']
     if g and ground:
-        symbols.append({'sym': 'Ground', 'at': list(rng.choice(own[g[0]['nodes'][0]]))})
+        gs = {'sym': 'Ground', 'at': list(rng.choice(own[g[0]['nodes'][0]]))}
+        if (len(symbols) + len(own)) % 3 == 0:
+            gs['name'] = ['GND', 'M', 'gnd'][len(symbols) % 3]                 # a ground symbol with a name of its own
+        symbols.append(gs)
     for n, name in (labels or {}).items():
         if n in own and not (g and ground and g[0]['nodes'][0] == n):
             # the node's name is given by a labelled dot or (one in three) by the plain Node symbol that has no visible label
@@ -297,6 +300,11 @@ def embed(rng, cdesc, grid=6, labels=None, ground=True, sym_of=None):
         # junction dots without a name on up to two different nodes: they name nothing (and must not be read as one node)
         dots = [n for n in own if not (g and ground and g[0]['nodes'][0] == n) and n not in (labels or {})][:2]
         for n in dots:
+            symbols.append({'sym': 'Node', 'name': '', 'at': list(rng.choice(own[n]))})
+    elif len(symbols) % 3 == 1:
+        # a junction dot without a name on a node that HAS a name (label or ground symbol), before or after it: the name stays
+        named = [n for n in own if n in (labels or {}) or (g and ground and g[0]['nodes'][0] == n)][:2]
+        for n in named:
             symbols.append({'sym': 'Node', 'name': '', 'at': list(rng.choice(own[n]))})
     rng.shuffle(symbols)
     return {'unit': rng.choice([3, 7, 2.5]), 'step': rng.choice([1.5, 3.0, 2.0]), 'offset': [0.0, 0.0], 'rot': 0, 'symbols': symbols}
